@@ -12,12 +12,14 @@
    ContinueOnError off: whenever the schema walk succeeds on (base, j) its output, read at the root location, is bisimilar
    to (base, j) — provided the reference graph is well-formed in the sense of the hypotheses G_*, which a decision
    procedure establishes by computation on any finite graph ([C02_checked_graph]).
-   Not proved (covered by the correspondence and the oracle only): the chains of parameter / response / path-item
-   references (deref) — where the defects F7 and F8 were found and repaired — and the URL-algebra conditions in
-   G_same/G_render for ALL urls (they are decided per graph instead). *)
+   Also proved (Expand/ExpandElem.v): the `$ref` chains of parameters / responses / path items (deref) are followed in the
+   document each hop lands in, and an expanded parameter / response has the members of the end of its chain with a
+   bisimilar schema — whenever the chain is followed to its end (a chain cut as circular denotes nothing).
+   Not proved (covered by the correspondence and the oracle only): the composition over operations, path items and the
+   sections of a whole specification, and the URL-algebra conditions in G_same/G_render for ALL urls (decided per graph). *)
 From Coq Require Import List String Bool.
 From Spec Require Import Base.Json Base.Url Codec.Types Codec.Gen_Tables Codec.Codec Codec.CodecFacts
-  Expand.Expand Expand.ExpandFacts Expand.ExpandSim Expand.ExpandSimCheck Expand.ExpandCycle Expand.ExpandExample.
+  Expand.Expand Expand.ExpandFacts Expand.ExpandSim Expand.ExpandSimCheck Expand.ExpandCycle Expand.ExpandElem Expand.ExpandExample.
 Import ListNotations.
 Local Open Scope string_scope.
 
@@ -111,10 +113,70 @@ Proof.
 Qed.
 Print Assumptions C02_example_conclusion.
 
+(* ---------- parameters and responses: `$ref` chains (Expand/ExpandElem.v) ---------- *)
+(* deref follows a chain of parameter / response / path-item references hop by hop IN THE DOCUMENT EACH HOP LANDS IN: when it
+   reaches the end of the chain (it is not cut as circular), the holder, the base and the resolver root it returns are
+   those of the end of the chain as the semantics [chases_k] defines it, and resolver and base are coherent again.  (The
+   defect F7 — the first resolver kept for the whole chain — made exactly this statement false; it is repaired.) *)
+Theorem C02_chain_followed_in_the_right_document : forall E docs cwd OP live rid,
+  (forall lu ld, live = Some (lu, ld) -> doc_at docs cwd lu = Some ld) -> o_cont OP = false ->
+  forall GE : string -> string -> list (string * json) -> Prop,
+  (forall kind b m, GE kind b m -> get_str "$ref" m <> "" -> remove_key "$ref" m = []) ->
+  (forall kind b m b1 tm, GE kind b m -> get_str "$ref" m <> "" ->
+     sem_target_k E docs cwd kind (get_str "$ref" m) b = Some (b1, JObj tm) -> GE kind b1 tm /\ merge_over tm [] = tm) ->
+  (forall kind b m nref, GE kind b m -> get_str "$ref" m <> "" -> nuri (get_str "$ref" m) b = POk nref ->
+     keeps_resolver (get_str "$ref" m) b nref -> nbase cwd (strip_frag nref) = nbase cwd (strip_frag b)) ->
+  forall kind fuel s parents rroot base m s' m1 rr1 b1,
+  GE kind base m -> Inv docs rid s -> Coh cwd rroot base ->
+  deref E docs cwd OP live fuel s parents rroot base kind m = Done (s', m1, rr1, b1) -> get_str "$ref" m1 = "" ->
+  Inv docs rid s' /\ Coh cwd rr1 b1 /\ chases_k E docs cwd kind base m b1 m1 /\ GE kind b1 m1.
+Proof. exact deref_sem. Qed.
+Print Assumptions C02_chain_followed_in_the_right_document.
+
+(* an expanded parameter / response has the members of the end of its chain, its schema bisimilar (read at the root
+   location) to the schema found there; graph hypotheses decided by the two checkers *)
+Theorem C02_parameters_and_responses : forall E docs cwd OP ctx_base rid nodes enodes live,
+  check_nodes E docs cwd OP ctx_base rid nodes = true -> check_enodes E docs cwd enodes nodes = true ->
+  (forall lu ld, live = Some (lu, ld) -> doc_at docs cwd lu = Some ld) -> o_cont OP = false ->
+  forall kind d fuel s rroot base m s' j' s1 m1 rr1 b1,
+  GEN enodes kind base m -> Inv docs rid s -> Coh cwd rroot base ->
+  deref E docs cwd OP live fuel s [] rroot base kind m = Done (s1, m1, rr1, b1) -> get_str "$ref" m1 = "" ->
+  expand_por E docs cwd OP live (exp E docs cwd OP ctx_base live d) fuel s rroot base kind (JObj m) = Done (s', j') ->
+  Inv docs rid s' /\ chases_k E docs cwd kind base m b1 m1 /\
+  exists mo, j' = JObj mo /\ forall n, rel_por E docs cwd n b1 (remove_key "$ref" m1) ctx_base mo.
+Proof. exact checked_por_sim. Qed.
+Print Assumptions C02_parameters_and_responses.
+
+(* non-vacuity: the cross-document chain of ExpandExample.v (x.json -> root.json#/parameters/p1 -> #/parameters/p0, a
+   body parameter with a recursive schema) *)
+Example C02_example_chain : forall s' j',
+  expand_por gen_env el_docs "/" (mkOpts false false false) el_live (exp gen_env el_docs "/" (mkOpts false false false) el_root_url el_live 6)
+             6 ex_s0 (Some el_other_url) el_other_url "Parameter" (JObj el_holder) = Done (s', j') ->
+  chases_k gen_env el_docs "/" "Parameter" el_other_url el_holder el_root_url el_p0
+  /\ exists mo, j' = JObj mo /\ forall n, rel_por gen_env el_docs "/" n el_root_url el_p0 el_root_url mo.
+Proof.
+  intros s' j' H. set (OP := mkOpts false false false).
+  assert (Hck : check_nodes gen_env el_docs "/" OP el_root_url "" el_nodes = true) by (vm_compute; reflexivity).
+  assert (Hcke : check_enodes gen_env el_docs "/" el_enodes el_nodes = true) by (vm_compute; reflexivity).
+  assert (Hlive : forall lu ld, el_live = Some (lu, ld) -> doc_at el_docs "/" lu = Some ld) by (intros lu ld E; inversion E; subst; vm_compute; reflexivity).
+  assert (Hg : GEN el_enodes "Parameter" el_other_url el_holder) by (left; reflexivity).
+  assert (Hinv : Inv el_docs "" ex_s0) by (split; [intros u d E; discriminate|reflexivity]).
+  assert (Hcoh : Coh "/" (Some el_other_url) el_other_url) by (intros ru E; inversion E; subst; reflexivity).
+  assert (Hd : exists s1, deref gen_env el_docs "/" OP el_live 6 ex_s0 [] (Some el_other_url) el_other_url "Parameter" el_holder
+                          = Done (s1, el_p0, Some el_root_url, el_root_url)) by (vm_compute; eexists; reflexivity).
+  destruct Hd as [s1 Hd].
+  destruct (C02_parameters_and_responses _ _ _ _ _ _ _ _ _ Hck Hcke Hlive eq_refl _ _ _ _ _ _ _ _ _ _ _ _ _ Hg Hinv Hcoh Hd eq_refl H) as [_ [Hch Hmo]].
+  split; [exact Hch|exact Hmo].
+Qed.
+Example C02_example_chain_runs : exists s' j',
+  expand_por gen_env el_docs "/" (mkOpts false false false) el_live (exp gen_env el_docs "/" (mkOpts false false false) el_root_url el_live 6)
+             6 ex_s0 (Some el_other_url) el_other_url "Parameter" (JObj el_holder) = Done (s', j').
+Proof. vm_compute. eexists. eexists. reflexivity. Qed.
+
 (* ---------- beyond the schema walk ---------- *)
-(* parameters, responses and path items as well: their `$ref` chains (deref) are NOT covered by the theorems above; they
-   are tied by the differential run and judged by the oracle.  The witness of the repaired defect F7 (a chain whose
-   second hop is fragment-only was resolved in the document of the first resolver) as an evaluation of the model: *)
+(* path items and operations (lists of parameters, maps of responses) and the four sections of ExpandSpec are compositions
+   of the functions above; the composition itself is not proved — it is tied by the differential run and judged by the
+   oracle.  The witness of the repaired defect F7 through the whole of ExpandSpec, as an evaluation of the model: *)
 Definition f7_root := pj
  "{""swagger"":""2.0"",""info"":{""title"":""doc0"",""version"":""1""},
    ""parameters"":{""p0"":{""in"":""query"",""name"":""q28"",""type"":""string""},""p1"":{""$ref"":""#/parameters/p0""}},
